@@ -8,6 +8,7 @@
 #include <fcppt/container/buffer/to_raw_vector.hpp>
 #include <fcppt/container/raw_vector/comparison.hpp>
 #include <fcppt/container/raw_vector/object.hpp>
+#include <fcppt/container/dynamic_array.hpp>
 #include <fcppt/io/read_chars.hpp>
 #include <fcppt/optional/object.hpp>
 #include <algorithm>
@@ -998,6 +999,29 @@ struct World
       ctx.ev("b_to_vector b" + std::to_string(bs) + " -> v" + std::to_string(s));
       return;
     }
+    if (n == "dyn_array")
+    {
+      // container::dynamic_array: one allocation of exactly n elements, released on destruction
+      using DA = fcppt::container::dynamic_array<T, A>;
+      std::size_t const cnt = op.getu("n") % 24;
+      std::size_t const before = sim::ledger().live.size();
+      std::unique_ptr<DA> da;
+      bool const ok = guarded([&] { da = op.get("a") != 0 ? std::make_unique<DA>(cnt, alloc) : std::make_unique<DA>(cnt); });
+      if (ok)
+      {
+        DA const &cda = *da;
+        SIM_CHECK(da->size() == cnt && static_cast<std::size_t>(da->data_end() - da->data()) == cnt && cda.data() == da->data() && cda.data_end() == da->data_end(), "dynamic_array-extent", n);
+        auto it = sim::ledger().live.find(static_cast<void *>(da->data()));
+        SIM_CHECK(it != sim::ledger().live.end() && it->second == cnt, "ledger:capacity-mismatch", "dynamic_array block");
+        std::vector<T> const src = fresh_n(cnt);
+        std::copy(src.begin(), src.end(), da->data());
+        SIM_CHECK(std::equal(src.begin(), src.end(), cda.data()), "dynamic_array-contents", n);
+        guarded([&] { da.reset(); });
+      }
+      SIM_CHECK(sim::ledger().live.size() == before, "ledger:leak", "dynamic_array left a block behind");
+      ctx.ev("dyn_array n=" + std::to_string(cnt) + (ok ? "" : " threw"));
+      return;
+    }
     if (n == "read_chars")
     {
       // io::read_chars over a simulated stream (std::allocator inside; checked by result only)
@@ -1087,7 +1111,7 @@ void generate(sim::Rng &rng, sim::Plan &p, bool thorough)
       "shrink", "clear", "swap", "move_ctor", "move_assign", "compare", "get_allocator"};
   static char const *const bops[] = {
       "b_ctor", "b_destroy", "b_resize_write", "b_fill", "b_append", "b_append_opt", "b_read",
-      "b_read_opt", "b_swap", "b_move_ctor", "b_move_assign", "b_to_vector", "read_chars"};
+      "b_read_opt", "b_swap", "b_move_ctor", "b_move_assign", "b_to_vector", "read_chars", "dyn_array"};
   std::vector<std::string> bag;
   unsigned const mode = static_cast<unsigned>(rng.below(4)); // 0 vector only, 1 buffer heavy, 2/3 mixed
   for (auto const *o : vops)
@@ -1143,6 +1167,10 @@ void generate(sim::Rng &rng, sim::Plan &p, bool thorough)
         if (n == "b_append_opt" || n == "b_read_opt")
           op.set("none", rng.chance(1, 4) ? 1 : 0);
       }
+    }
+    else if (n == "dyn_array")
+    {
+      op.set("n", static_cast<long>(rng.below(24))).set("a", static_cast<long>(rng.below(2)));
     }
     else if (n == "read_chars")
     {
